@@ -78,6 +78,16 @@ class CallMixin:
                 return fn.payload(self, args, kwargs)
         if isinstance(fn, type) and issubclass(fn, enum.Enum):
             return self.unit.enum_construct(self, fn, args[0])
+        if isinstance(fn, VOpt):
+            if not self.spec:
+                self.deref(fn, "call")
+            fn = fn.val
+        if isinstance(fn, Sym) and fn.k == "ref":
+            key = "%s.__call__" % fn.cls
+            spec = self.unit.contract.calls.get(key)
+            if spec is None:
+                raise GenError("calling a %s has no spec (%s)" % (fn.cls, key))
+            return self.unit.call_callee(self, key, spec, [fn] + list(args), kwargs, node)
         raise GenError("call of %r (line %s)" % (fn, getattr(node, "lineno", "?")))
 
     # ---- closures / inlined functions: execute the real body
